@@ -149,6 +149,12 @@ class ExprMixin(EngineCore):
         return out
 
     def binop_ext(self, st, op, a, b, e):
+        la, lb = ops.lift(a), ops.lift(b)
+        if isinstance(op, ast.Sub) and isinstance(lb, XReal) and not z3.is_false(z3.simplify(lb.isinf)):
+            # x - inf is -inf / NaN: outside the extended-real model; the code must never get there
+            self.oblige(st, z3.Not(lb.isinf), "model", getattr(e, "lineno", 0), "subtrahend-is-finite (no inf - inf / -inf arithmetic on timeouts)", ("C11",))
+            st.assume(z3.Not(lb.isinf))
+            b = XReal(z3.BoolVal(False), lb.v)
         if isinstance(a, Ref) and META[a.oid].kind == "list" and isinstance(b, Ref) and META[b.oid].kind == "list":
             return self.new_list(st, st.get(a, "items") + st.get(b, "items"))
         return ops.binop(st, op, a, b)
@@ -493,7 +499,14 @@ class ExprMixin(EngineCore):
 
     # ------------------------------------------------------------------ await / yield are in the statements mixin
     def ev_Await(self, e, st, ctx):
-        return self.eval_expr(e.value, st, ctx)
+        out = []
+        for s, v in self.eval_expr(e.value, st, ctx):
+            if isinstance(v, Ref) and META[v.oid].kind == "object" and isinstance(META[v.oid].cls, ClassVal) \
+                    and self.P.find_method(META[v.oid].cls.ci, "__model_await__") is not None:
+                out.extend(self.call_method(s, ctx, v, "__model_await__", [], {}, e.lineno))  # awaiting a future-like model object
+            else:
+                out.append((s, v))
+        return out
 
     def ev_Call(self, e, st, ctx):
         return self.eval_call(e, st, ctx)
